@@ -501,6 +501,7 @@ def check(prop, tier, seed):
     samples, dist = [], {}
     corr_errors = []
     mismatches = []
+    retried = [0]
     stream_sets = spec.streams(tier, rng)
     corpus = streams.load_corpus(prop)
     if corpus:
@@ -522,6 +523,14 @@ def check(prop, tier, seed):
             dist_k = "%s/%s" % (ss.name, c[2] or c[1])
             dist[dist_k] = dist.get(dist_k, 0) + 1
             d = compare_case(c, impl.get(c[0]), mod.get(c[0]))
+            if d and "timeout" in str(d.get("observed", "")) and ss.cfg != "tsan" and ss.name not in ("pool", "tsan-pool"):
+                # slow is not wrong: a case that ran out of its (load-dependent) time budget is run again
+                # alone with a 15x budget; a real hang still times out and is reported
+                i2, m2, e2 = run_cases([c], ss.cfg, os.path.join(rundir, ss.name + "_retry"), ss.extra_defs, ss.tag,
+                                       ss.timeout * 15, ss.env, phase2=ss.phase2)
+                if not e2:
+                    d = compare_case(c, i2.get(c[0]), m2.get(c[0]))
+                    retried[0] += 1
             if d:
                 nbad += 1
                 mismatches.append((ss, c, d))
